@@ -558,3 +558,35 @@ Proof.
   - right. split; [unfold s_put; cbn [r_kv]; apply lookup_put_same | unfold s_put; cbn [r_now]; lia].
   - unfold s_put. cbn [r_now]. lia.
 Qed.
+
+(* ---- from the status record to the Store API ---- *)
+(* GetWorkloadStatus shows the status record stored under the workload's own names *)
+Lemma get_workload_status_reads_record : forall (v : view) id w a e,
+  lookup v (KWl id) = Some (VWl w) -> w_parse w = Some (a, e) ->
+  (exists nd, lookup v (KNode (w_node w)) = Some (VNode nd) /\ n_name nd = w_node w) ->
+  read_op v (OGetWorkloadStatus id) =
+  Some (ROk (PWSt (match lookup v (KStatus a e (w_node w) (w_id w)) with
+                   | Some (VWSt s) => Some s
+                   | _ => None
+                   end))).
+Proof.
+  intros v id w a e LW P [nd [LN NN]]. cbn [read_op]. f_equal.
+  unfold v_get_workloads. cbn [map v_get_multi]. unfold v_get_one. rewrite LW. cbn [unmarshal_workloads option_map].
+  unfold v_bind_additions, bind_additions. cbn [collect_additions]. rewrite P. cbn [existsb app nput].
+  unfold v_get_nodes. cbn [map v_get_multi]. unfold v_get_one. rewrite LN.
+  unfold do_get_nodes. cbn [unmarshal_nodes option_map filter labels_filter forallb map orb].
+  cbn [attach_additions existsb node_view nv_d]. rewrite NN, name_eqb_refl. cbn [orb negb nassoc].
+  rewrite name_eqb_refl. cbn [res_first_wl_status wv_st]. reflexivity.
+Qed.
+
+Definition workload_status_api_stmt : Prop :=
+  forall (s : estate) (id : name) (w : wdata) (a e : name) (st : wstat),
+    lookup (e_view s) (KWl id) = Some (VWl w) -> w_parse w = Some (a, e) -> w_id w = id ->
+    (exists nd, lookup (e_view s) (KNode (w_node w)) = Some (VNode nd) /\ n_name nd = w_node w) ->
+    lookup (e_view s) (KStatus a e (w_node w) id) = Some (VWSt st) ->
+    estep s (OGetWorkloadStatus id) = (s, ROk (PWSt (Some st))).
+Lemma workload_status_api_holds : workload_status_api_stmt.
+Proof.
+  intros s id w a e st LW P ID ND LS. unfold estep.
+  rewrite (get_workload_status_reads_record (e_view s) id w a e LW P ND). rewrite ID, LS. reflexivity.
+Qed.
